@@ -543,7 +543,11 @@ Label BaseBuilder::new_named_label(const char* name, size_t name_size, LabelType
 
 Error BaseBuilder::bind(const Label& label) {
   LabelNode* node;
-  ASMJIT_PROPAGATE(label_node_of(Out(node), label));
+  Error err = label_node_of(Out(node), label);
+
+  if (ASMJIT_UNLIKELY(err != Error::kOk)) {
+    return report_error(err);
+  }
 
   // A label can be bound only once - adding a node that is already part of the node list would corrupt the list.
   if (ASMJIT_UNLIKELY(node->is_active())) {
